@@ -81,7 +81,8 @@ class EnvSpec:
 class FuncContract:
     def __init__(self, qual, params=None, returns=None, requires=(), ensures=(), raises=(), raises_when=(), modifies=(),
                  cls=None, ensures_exc=(), inline=False, loops=None, check_invariant=True, ghost=None, self_fields=None, fresh_self=False,
-                 assume_invariant=True, props=(), result_is=None, setup=None, rely=(), monitor_preserves=(), entry_holds=None):
+                 assume_invariant=True, props=(), result_is=None, setup=None, rely=(), monitor_preserves=(), entry_holds=None, closure_self=None):
+        self.closure_self = closure_self                 # class of the `self` a nested function closes over (verified like a method of it)
         self.entry_holds = dict(entry_holds or {})       # role -> [lock field names] held when the function is entered
         self.rely = list(rely)                           # [(name, text over params+self)] re-assumed after every monitor havoc (stable under other threads)
         self.monitor_preserves = list(monitor_preserves)   # [(name, int-valued text)] equal at release to its value at acquire
@@ -105,6 +106,15 @@ class FuncContract:
         self.props = list(props)
 
 
+class Cut:
+    """A cut point at a TOP-LEVEL statement of the function (identified by a snippet of its source line): paths arriving
+    there must establish `invariants` and stop; one fresh segment starts there from an arbitrary state satisfying them
+    (locals re-created from `locals` types, the contract's `modifies` locations havocked, old() = an arbitrary entry state)."""
+    def __init__(self, anchor, invariants=(), locals=None, init=None):
+        self.anchor, self.invariants, self.locals = anchor, list(invariants), dict(locals or {})
+        self.init = init          # callable(eng, frame): builds locals / ghost state that a type descriptor cannot express
+
+
 def _unreachable_ok_lines(self, eng, fn):
     # statements whose source line contains one of the contract's `unreachable_ok` snippets (documented dead code)
     out = []
@@ -121,12 +131,16 @@ def _unreachable_ok_lines(self, eng, fn):
 
 FuncContract.unreachable_ok_lines = _unreachable_ok_lines
 FuncContract.unreachable_ok = ()
+FuncContract.frame_check = True
+FuncContract.cuts = ()
 
 
 class LoopSpec:
-    def __init__(self, invariants=(), variant=None, modifies=(), unroll=None, kind=None, index=None, types=None):
+    def __init__(self, invariants=(), variant=None, modifies=(), unroll=None, kind=None, index=None, types=None, establishes=()):
         self.types = dict(types or {})        # local name -> type descriptor used when the loop havocs it
         self.assumed = []                     # [(name, text)] assumed with the invariants, never proved (listed as assumptions)
+        self.establishes = list(establishes)  # element predicate names: proved for the arbitrary element at the end of the body, then
+                                              # installed as a fact on the iterated list when the loop finishes by exhaustion
         self.invariants = list(invariants)    # [(name, text)] over locals + self
         self.variant = variant                # text -> int or tuple of ints (lexicographic)
         self.modifies = list(modifies)        # extra heap locations "self.f" havocked
@@ -286,9 +300,9 @@ def field_type(eng, obj, field):
 
 
 # ----------------------------------------------------------- applying a contract
-def apply_contract(eng, con, fn, args, kwargs, node, fr, caller_label=None):
+def apply_contract(eng, con, fn, args, kwargs, node, fr, caller_label=None, extra_env=None):
     """modular call: check requires, havoc modifies, assume ensures / fork raises."""
-    env = {}
+    env = dict(extra_env or {})
     eng.bind_params(fn, list(args), dict(kwargs), env, con.qual.split(".")[0], con.qual, node)
     caller = fr.qual if fr is not None else "?"
     short = con.qual.split(".", 1)[1] if "." in con.qual else con.qual
@@ -296,6 +310,7 @@ def apply_contract(eng, con, fn, args, kwargs, node, fr, caller_label=None):
     k = ords.get(short, 0) + 1
     ords[short] = k
     site = "%s/call:%s#%d" % (caller_label or eng.cur_func, short, k)
+    eng.contracts_applied.add(con.qual)
     for nm, text in con.requires:
         v = eng.eval_spec(text, env, con.qual.split(".")[0])
         eng.oblige("%s/pre:%s" % (site, nm), eng.truth(v), clause=text, kind="call-pre")
@@ -356,14 +371,15 @@ def verify_function(eng, con, label=None, setup=None, extra_checks=None):
     modname = con.qual.split(".")[0]
     label = label or con.qual
     is_method = bool(fn.args.args) and fn.args.args[0].arg == "self"
+    closure = con.closure_self is not None
 
     def run_once():
         eng.cur_func = label
         eng.cur_qual = con.qual
         env = {}
         self_obj = None
-        if is_method:
-            cls = con.cls or ".".join(con.qual.split(".")[:-1])
+        if is_method or closure:
+            cls = con.closure_self or con.cls or ".".join(con.qual.split(".")[:-1])
             self_obj = eng.new_obj(cls)
             if not con.fresh_self:
                 spec = eng.reg.class_spec(cls)
@@ -404,14 +420,53 @@ def verify_function(eng, con, label=None, setup=None, extra_checks=None):
             eng.assuming = False
         old = eng.state.snapshot()
         old_env = dict(env)
+        eng.entry_oids = {k[0] for k in old.heap} | {v.oid for v in old.heap.values() if isinstance(v, VObj)} | {v.oid for v in env.values() if isinstance(v, VObj)}
         fr = Frame(modname, con.qual, dict(env), self_obj)
         fr.depth = 0
         fr.old_state = old
         fr.entry_env = dict(env)
         eng.entry_env = dict(env)
         outcome = ("normal", NONE)
+        eng.final_locals = fr.env
+        body = fn.body
+        seg = eng.segment
+        if seg > 0:
+            # start at cut `seg`: arbitrary current state satisfying the cut invariants (old() = the arbitrary entry state above)
+            cut = con.cuts[seg - 1]
+            for loc in con.modifies:
+                obj, field = resolve_location(eng, loc, env)
+                cur = eng.state.heap.get((obj.oid, field))
+                ty = field_type(eng, obj, field)
+                eng.state.heap[(obj.oid, field)] = havoc_like(eng, cur, loc, ty)
+            for nm, ty in cut.locals.items():
+                fr.env[nm] = eng.fresh_of_type(ty, nm)
+            if cut.init:
+                cut.init(eng, fr)
+            eng.assuming = True
+            try:
+                if self_obj is not None:
+                    assume_class_invariants(eng, self_obj)
+                    eng.assuming = True
+                for nm, text in cut.invariants:
+                    eng.assume(eng.truth(eng.eval_spec(text, dict(fr.env), modname, old=old, old_env=dict(env))))
+            finally:
+                eng.assuming = False
+            body = fn.body[cut_index(fn, cut, eng, modname):]
+        stop_at = None
+        if seg < len(con.cuts):
+            nxt = con.cuts[seg]
+            stop_at = fn.body[cut_index(fn, nxt, eng, modname)]
         try:
-            eng.exec_block(fn.body, fr)
+            for st in body:
+                if st is stop_at:
+                    if self_obj is not None and con.check_invariant:
+                        check_class_invariants(eng, self_obj, "%s/cut%d" % (label, seg + 1))
+                    for nm, text in con.cuts[seg].invariants:
+                        eng.oblige("%s/cut%d:%s" % (label, seg + 1, nm),
+                                   eng.truth(eng.eval_spec(text, dict(fr.env), modname, old=old, old_env=dict(env))), clause=text, kind="cut")
+                    eng.exits = getattr(eng, "exits", 0) + 1
+                    raise PathEnd("cut point")
+                eng.exec(st, fr)
         except ReturnSig as r:
             outcome = ("normal", r.val)
         except RaiseSig as rs:
@@ -431,12 +486,17 @@ def verify_function(eng, con, label=None, setup=None, extra_checks=None):
                 eng.oblige("%s/ensures:%s" % (label, nm), eng.truth(eng.eval_spec(text, env2, modname, old=old)), clause=text, kind="ensures")
         if self_obj is not None and con.check_invariant:
             check_class_invariants(eng, self_obj, label)
+        if con.frame_check:
+            check_frame(eng, con, old, old_env, label)
         if extra_checks:
             extra_checks(eng, env2, old, outcome, label)
 
     eng.exits = 0
     eng.covered = set()
-    n = eng.explore(run_once)
+    n = 0
+    for seg in range(len(con.cuts) + 1):
+        eng.segment = seg
+        n += eng.explore(run_once)
     # vacuity guard: which statements of the function's own body were reached by at least one path
     own = set()
 
@@ -459,6 +519,105 @@ def verify_function(eng, con, label=None, setup=None, extra_checks=None):
         raise OutOfSubset("vacuity guard: no path of %s reaches a function exit (contradictory contract or invariant?)" % con.qual)
     eng.exit_paths = eng.exits
     return n
+
+
+def cut_index(fn, cut, eng, modname):
+    text = eng.repo.text(modname).splitlines()
+    for k, st in enumerate(fn.body):
+        if cut.anchor in text[st.lineno - 1]:
+            return k
+    raise OutOfSubset("cut anchor %r is not a top-level statement of the function" % cut.anchor)
+
+
+def check_frame(eng, con, old, env, label):
+    """frame condition: every field (of an object that existed at entry) whose value differs from the entry state is
+    covered by the contract's `modifies`; in-place mutation of a list/dict/set held in such a field counts as a change.
+    Callers havoc exactly `modifies`, so a missing entry would make every caller's proof unsound."""
+    allowed = set()
+    for loc in con.modifies:
+        try:
+            obj, field = resolve_location(eng, loc, env)
+            allowed.add((obj.oid, field))
+        except Exception:
+            pass
+    # state shared under a monitor is havocked at every acquisition: callers never rely on it across a call
+    for mon in getattr(eng.reg, "monitors", []) or []:
+        me = getattr(eng, "self_under_verification", None)
+        if me is not None:
+            for f in mon.protected:
+                allowed.add((me.oid, f))
+    changed = []
+    entry_oids = getattr(eng, "entry_oids", set())
+    for key, newv in eng.state.heap.items():
+        if key[0] not in entry_oids:
+            continue              # object first seen after entry (created, or an element drawn from a havocked container)
+        if key not in old.heap:
+            if key in getattr(eng, "lazy_init", {}) and eng.lazy_init[key] is newv:
+                continue
+            oid = key[0]
+            if not any(k[0] == oid for k in old.heap) and key not in getattr(eng, "lazy_init", {}):
+                continue          # object created during the call
+            changed.append(key)
+            continue
+        oldv = old.heap[key]
+        if same_value(eng, oldv, newv, old):
+            continue
+        changed.append(key)
+    bad = sorted({"%s" % f for (oid, f) in changed if (oid, f) not in allowed})
+    for f in bad:
+        eng.oblige("%s/frame:%s-not-in-modifies" % (label, f), z3.BoolVal(False),
+                   clause="field .%s is written by the body but missing from the contract's modifies clause" % f, kind="frame")
+    if not bad:
+        eng.oblige("%s/frame:only-declared-locations-change" % label, z3.BoolVal(True), kind="frame")
+
+
+def same_value(eng, a, b, old):
+    if a is b:
+        if isinstance(a, VList):
+            return eng.state.lists.get(a.lid) is not None and _same_list(eng.state.lists[a.lid], old.lists.get(a.lid))
+        if isinstance(a, pyvc.VDict):
+            return _same_dict(eng.state.dicts[a.did], old.dicts.get(a.did))
+        if isinstance(a, pyvc.VSet):
+            return eng.state.sets[a.sid] == old.sets.get(a.sid) or all(x is y for x, y in zip(eng.state.sets[a.sid], old.sets.get(a.sid, (None, None))))
+        return True
+    for cls in (VInt, VBool, VStr):
+        if isinstance(a, cls) and isinstance(b, cls):
+            return z3.is_true(z3.simplify(a.t == b.t))
+    if isinstance(a, VObj) and isinstance(b, VObj):
+        return a.oid == b.oid
+    if isinstance(a, pyvc.VNone) and isinstance(b, pyvc.VNone):
+        return True
+    if isinstance(a, VOpt) and isinstance(b, VOpt):
+        return z3.is_true(z3.simplify(a.none == b.none)) and same_value(eng, a.val, b.val, old)
+    if isinstance(a, VList) and isinstance(b, VList):
+        return a.lid == b.lid and _same_list(eng.state.lists[a.lid], old.lists.get(a.lid))
+    return False
+
+
+def _same_list(new, oldm):
+    if oldm is None:
+        return False
+    if new.items is not None and oldm.items is not None:
+        return len(new.items) == len(oldm.items) and all(x is y for x, y in zip(new.items, oldm.items))
+    if new.items is None and oldm.items is None:
+        return (new.length is oldm.length or z3.is_true(z3.simplify(new.length == oldm.length))) and (new.seq is oldm.seq or (new.seq is not None and oldm.seq is not None and z3.is_true(z3.simplify(new.seq == oldm.seq)))) and len(new.elem_facts) == len(oldm.elem_facts)
+    return False
+
+
+def _same_dict(new, oldm):
+    if oldm is None:
+        return False
+    if set(new.entries) != set(oldm.entries):
+        # lazily materialised look-ups of an open dict are not writes
+        for k in set(new.entries) - set(oldm.entries):
+            pass
+    for k, (p, v) in oldm.entries.items():
+        if k not in new.entries:
+            return False
+        p2, v2 = new.entries[k]
+        if not (p is p2 or z3.is_true(z3.simplify(p == p2))) or v is not v2:
+            return False
+    return len(getattr(new, "sym_entries", [])) == len(getattr(oldm, "sym_entries", [])) and new.open == oldm.open
 
 
 def all_specs(eng, cls):
